@@ -21,6 +21,8 @@ CHECK_FLAGS = ['--bounds-check', '--pointer-check', '--pointer-primitive-check',
 # NaNs deliberately in places; the statistics groups ask for them explicitly.
 
 _scratch = None
+import threading
+_lock = threading.Lock()
 
 
 def scratch():
@@ -39,7 +41,7 @@ class Group:
                  named=None, canaries=1, functions=(), stubs=(), assumes=(), replay=None,
                  extra_cbmc=(), extra_instrument=(), nondet_static=False, runner=None,
                  also=(), text='', ndebug=False, mem_gb=12, object_bits=None,
-                 no_standard_checks=False, includes=(), annotate=None):
+                 no_standard_checks=False, includes=(), annotate=None, partial_unwind=False):
         self.id = id; self.prop = prop; self.harness = harness; self.entry = entry
         self.defines = list(defines); self.level = level; self.bound = bound
         self.backend = backend; self.unwind = unwind; self.unwindset = unwindset
@@ -52,6 +54,7 @@ class Group:
         self.mem_gb = mem_gb; self.object_bits = object_bits
         self.no_standard_checks = no_standard_checks; self.includes = list(includes)
         self.annotate = annotate or {}
+        self.partial_unwind = partial_unwind
 
 
 class Result:
@@ -110,6 +113,11 @@ def classify(desc, name, file):
 
 def codegen_dir():
     """Regenerate the ziggurat tables from /repo/codegen on every run."""
+    with _lock:
+        return _codegen_dir_locked()
+
+
+def _codegen_dir_locked():
     d = os.path.join(scratch(), 'codegen')
     if os.path.isdir(d):
         return d
@@ -196,15 +204,15 @@ def run_cbmc_group(g, keep=False):
             return res
         cur = nxt
     outjson = os.path.join(wd, 'out.json')
-    cmd = ['cbmc', cur, '--json-ui', '--trace', '--drop-unused-functions', '--no-malloc-may-fail',
-           '--slice-formula']
+    cmd = ['cbmc', cur, '--json-ui', '--trace', '--drop-unused-functions', '--no-malloc-may-fail']
+    # (--slice-formula is NOT used: it made the z3 run of the generator bootstrap go from 0.6 s to > 5 min)
     if not g.no_standard_checks:
         cmd += CHECK_FLAGS
     if g.unwind is not None:
         cmd += ['--unwind', str(g.unwind)]
     if g.unwindset:
         cmd += ['--unwindset', g.unwindset]
-    if g.unwind is not None or g.unwindset:
+    if (g.unwind is not None or g.unwindset) and not g.partial_unwind:
         cmd += ['--unwinding-assertions']
     if g.object_bits:
         cmd += ['--object-bits', str(g.object_bits)]
@@ -328,6 +336,14 @@ _native = {}
 
 def native_lib(flags=('-O1', '-g'), tag='dbg'):
     """Build the real library from the working tree (gcc + nasm), once per run."""
+    with _nlock:
+        return _native_lib_locked(flags, tag)
+
+
+_nlock = threading.Lock()
+
+
+def _native_lib_locked(flags, tag):
     if tag in _native:
         return _native[tag]
     d = os.path.join(scratch(), 'native-' + tag)
